@@ -20,7 +20,7 @@ def run(r):
                          num=(6000 if thorough else 1200), depth=depth, seed=r.seed + 7 + k)
         r.transitions += s.generated
         r.replay(None, s.behaviours, 'AskaryanRel', 'simulate depth %d' % depth, parallel=16, factory=AskaryanDriver)
-    for op in ('ScaleR', 'FlipAngle', 'ShiftBoth', 'ShiftT0', 'ScaleE', 'Zero', 'AngleScan'):
+    for op in ('ScaleR', 'FlipAngle', 'ShiftBoth', 'ShiftT0', 'ScaleE', 'Zero', 'AngleScan', 'HalveFraction'):
         if not r.actions_seen.get(op):
             raise tlc.TLCError('vacuity guard: op %s never replayed' % op)
     r.assumptions += ['grids with dyadic step 2^-31 s and 2^-30 s, whole-sample offsets (exact float arithmetic); uniform ice n = 1.78',
